@@ -159,12 +159,44 @@ func stCase(o *h.Out, rc *h.Rng, ans func(string)) {
 		nops := 5 + rc.Intn(55)
 		kinds := map[string]bool{}
 		reverts := 0
+		hot := 0
 		for i := 0; i < nops; i++ {
 			a := 1 + rc.Intn(4)
+			if hot != 0 && rc.Chance(50) {
+				a = hot
+			}
 			ia := stAddr(a)
 			k := rc.Intn(3)
 			x := rc.Intn(100)
 			name := ""
+			if len(stack) == 0 && i > 0 && rc.Chance(7) {
+				// the end of a transaction (no frame is open): self-destructed and emptied accounts are marked deleted -
+				// their objects stay until the block is committed - and the journal is cleared.  The following operations
+				// are the next transaction of the same block; an account deleted here is preferred by them (re-creation
+				// of a deleted account inside a frame that reverts)
+				before := map[int]bool{}
+				for b := 1; b <= 4; b++ {
+					before[b] = sdb.Exist(stAddr(b))
+				}
+				fin := func(s *state.StateDB) { s.Finalize(true) }
+				fin(sdb)
+				base = append(base, fin)
+				hot = 0
+				for b := 1; b <= 4; b++ {
+					if before[b] && !sdb.Exist(stAddr(b)) {
+						hot = b
+					}
+				}
+				o.Op("endtx")
+				ans("ok")
+				o.Op("dump")
+				ans(stDump(sdb))
+				o.Count("endtx")
+				if hot != 0 {
+					o.Count("endtx-deleted-an-account")
+				}
+				continue
+			}
 			switch {
 			case x < 10:
 				if len(stack) < 6 {
